@@ -104,6 +104,148 @@ func canonGuard(e ast.Expr) string {
 	return types.ExprString(e)
 }
 
+// callDefinedLocals: locals assigned exactly once, by `x := recv.Method(...)` or `x := f(...)`: name -> "Method()" / "f()"
+// (a condition on such a local is reported as a condition on what defines it, so that renaming the local changes nothing)
+func callDefinedLocals(body *ast.BlockStmt) map[string]string {
+	count := map[string]int{}
+	def := map[string]string{}
+	ast.Inspect(body, func(n ast.Node) bool {
+		as, ok := n.(*ast.AssignStmt)
+		if !ok {
+			return true
+		}
+		for i, l := range as.Lhs {
+			id, ok := l.(*ast.Ident)
+			if !ok {
+				continue
+			}
+			count[id.Name]++
+			if len(as.Lhs) == len(as.Rhs) {
+				if call, ok := as.Rhs[i].(*ast.CallExpr); ok {
+					switch f := call.Fun.(type) {
+					case *ast.SelectorExpr:
+						def[id.Name] = f.Sel.Name + "()"
+					case *ast.Ident:
+						def[id.Name] = f.Name + "()"
+					}
+				}
+			}
+		}
+		return true
+	})
+	out := map[string]string{}
+	for k, v := range def {
+		if count[k] == 1 {
+			out[k] = v
+		}
+	}
+	return out
+}
+
+func substLocals(e ast.Expr, defs map[string]string) string {
+	if p, ok := e.(*ast.ParenExpr); ok {
+		return substLocals(p.X, defs)
+	}
+	if id, ok := e.(*ast.Ident); ok {
+		if d, ok := defs[id.Name]; ok {
+			return d
+		}
+	}
+	return types.ExprString(e)
+}
+
+// guardText: a condition (negated or not) in canonical text; "this count is not zero" and "this is not nil" have one
+// spelling each
+func guardText(e ast.Expr, neg bool, defs map[string]string) string {
+	if p, ok := e.(*ast.ParenExpr); ok {
+		return guardText(p.X, neg, defs)
+	}
+	if u, ok := e.(*ast.UnaryExpr); ok && u.Op == token.NOT {
+		return guardText(u.X, !neg, defs)
+	}
+	if b, ok := e.(*ast.BinaryExpr); ok {
+		isLit := func(x ast.Expr, v string) bool { l, ok := x.(*ast.BasicLit); return ok && l.Value == v }
+		isNil := func(x ast.Expr) bool { id, ok := x.(*ast.Ident); return ok && id.Name == "nil" }
+		x, y, op := b.X, b.Y, b.Op
+		if isLit(x, "0") || isLit(x, "1") || isNil(x) { // constant on the left: mirror
+			x, y = y, x
+			switch op {
+			case token.LSS:
+				op = token.GTR
+			case token.GTR:
+				op = token.LSS
+			case token.LEQ:
+				op = token.GEQ
+			case token.GEQ:
+				op = token.LEQ
+			}
+		}
+		subj := substLocals(x, defs)
+		nonzero, zero := false, false
+		switch {
+		case isLit(y, "0") && (op == token.NEQ || op == token.GTR), isLit(y, "1") && op == token.GEQ:
+			nonzero = true
+		case isLit(y, "0") && (op == token.EQL || op == token.LEQ), isLit(y, "1") && op == token.LSS:
+			zero = true
+		}
+		if nonzero || zero {
+			if nonzero != neg {
+				return subj + " != 0"
+			}
+			return subj + " == 0"
+		}
+		if isNil(y) && (op == token.NEQ || op == token.EQL) {
+			if (op == token.NEQ) != neg {
+				return subj + " != nil"
+			}
+			return subj + " == nil"
+		}
+	}
+	if neg {
+		return "!(" + types.ExprString(e) + ")"
+	}
+	return types.ExprString(e)
+}
+
+func endsWithReturn(b *ast.BlockStmt) bool {
+	if b == nil || len(b.List) == 0 {
+		return false
+	}
+	_, ok := b.List[len(b.List)-1].(*ast.ReturnStmt)
+	return ok
+}
+
+// nearestGuard: the condition under which the call on top of `stack` is reached, as far as the nearest guard tells:
+// the condition of the nearest enclosing `if` (negated in its else branch); failing that, the negation of the nearest
+// preceding `if C { …; return }` of the enclosing blocks
+func nearestGuard(stack []ast.Node, defs map[string]string) string {
+	for i := len(stack) - 1; i >= 0; i-- {
+		if ifs, ok := stack[i].(*ast.IfStmt); ok && i+1 < len(stack) {
+			if stack[i+1] == ast.Node(ifs.Body) {
+				return guardText(ifs.Cond, false, defs)
+			}
+			if ifs.Else != nil && stack[i+1] == ifs.Else {
+				return guardText(ifs.Cond, true, defs)
+			}
+		}
+		if blk, ok := stack[i].(*ast.BlockStmt); ok && i+1 < len(stack) {
+			// statements of this block before the one that contains the call, nearest first
+			idx := -1
+			for k, st := range blk.List {
+				if ast.Node(st) == stack[i+1] {
+					idx = k
+				}
+			}
+			for k := idx - 1; k >= 0; k-- {
+				if ifs, ok := blk.List[k].(*ast.IfStmt); ok && ifs.Else == nil && endsWithReturn(ifs.Body) {
+					return guardText(ifs.Cond, true, defs)
+				}
+			}
+		}
+	}
+	return ""
+}
+
 // exitSites prints every os.Exit call of internal/cmd: function, nearest enclosing `if` condition, argument
 func exitSites(repo string) {
 	fset := token.NewFileSet()
@@ -140,6 +282,7 @@ func exitSites(repo string) {
 			if !ok || fd.Body == nil {
 				continue
 			}
+			defs := callDefinedLocals(fd.Body)
 			var stack []ast.Node
 			ast.Inspect(fd.Body, func(n ast.Node) bool {
 				if n == nil {
@@ -158,13 +301,7 @@ func exitSites(repo string) {
 				if id, ok := sel.X.(*ast.Ident); !ok || id.Name != "os" {
 					return true
 				}
-				guard := ""
-				for i := len(stack) - 1; i >= 0; i-- {
-					if ifs, ok := stack[i].(*ast.IfStmt); ok {
-						guard = canonGuard(ifs.Cond)
-						break
-					}
-				}
+				guard := nearestGuard(stack, defs)
 				arg := ""
 				if len(call.Args) == 1 {
 					arg = types.ExprString(call.Args[0])
